@@ -11,7 +11,7 @@ for ID in "$@"; do
   P=${ID:0:3}
   git -C $WT checkout -q -- . ; git -C $WT clean -fdq
   git -C $WT apply /verif/seeded/$ID/patch.diff 2>/dev/null || { echo "$ID PATCH-FAILED"; continue; }
-  for t in extract:Generated closures:GenClosures aggs:GenAgg maps:GenMap drivers:GenDrv gens:GenLin parts:GenPart fdiff:GenFd finals:GenFin; do
+  for t in extract:Generated closures:GenClosures aggs:GenAgg maps:GenMap drivers:GenDrv gens:GenLin parts:GenPart fdiff:GenFd finals:GenFin quant:GenQuant; do
     python3 /verif/translator/${t%%:*}.py $WT $LP/Tv/${t##*:}.lean >/dev/null 2>&1
   done
   T="Tv.Thm.$P"; for s in GenA Gen; do [ -f $LP/Tv/Thm/$P$s.lean ] && T="$T Tv.Thm.$P$s"; done
